@@ -14,7 +14,7 @@
 From Coq Require Import List NArith Bool Arith Sorting.Sorted.
 From Storage Require Import Base.Bytes Cursor.StrOrder Cursor.Core Cursor.BoltCursor Cursor.Typed
   Cursor.Filtered Cursor.Union Cursor.Tree Cursor.SetSym Cursor.Cases Cursor.SetSymProofs Cursor.C14Lemmas
-  Cursor.Reuse Cursor.ReuseProofs.
+  Cursor.Reuse Cursor.ReuseProofs Cursor.Scanner Cursor.ScannerProofs.
 Import ListNotations.
 Open Scope nat_scope.
 
@@ -223,3 +223,69 @@ Theorem scan_over_reused_symbol_selects_by_set : forall tag fuel f rows, filter_
   scan_run tag fuel f rows = Ok (scan_spec f rows).
 Proof. exact scan_run_spec. Qed.
 Print Assumptions scan_over_reused_symbol_selects_by_set.
+
+(* ---- scanners layered over cursors -------------------------------------------------------------------------
+   uniqueIndexScanner used as a cursor (newFilteredCursor: Store.IterateIds / IterateValidIds) reads ONE ELEMENT
+   AHEAD of what it shows: while the client stands on the last accepted element - on a one-entity store right after
+   the constructor - the wrapped cursor is already exhausted.  (Cursor/Scanner.v) *)
+
+(* the look-ahead scanner over ANY seekable cursor W that enumerates an ordered list L (given by a simulation
+   relation only, with non-nil elements): EVERY Next/Seek program observes exactly what the position machine over
+   the accepted elements [filter accept L] shows - whatever the wrapped cursor's own validity at the time of a Seek *)
+Theorem lookahead_scanner_is_the_cursor_over_the_filtered_list :
+  forall St (W : kcursor St) R fw L present matches fuel w0,
+  ksim W (dir_leb fw) L R -> nonnil (plain W) R -> sorted_dir fw L -> length L <= fuel -> R w0 L ->
+  forall ops,
+  krun (scanner_cursor St W present matches fuel 0 None) (sc_open St W present matches fuel 0 None w0) ops =
+  spec_run (dir_leb fw) (filter (accept_of present matches) L) ops.
+Proof. exact lookahead_scanner_lemma. Qed.
+Print Assumptions lookahead_scanner_is_the_cursor_over_the_filtered_list.
+
+(* Seek and filtering commute on an ordered enumeration: the first accepted element at or after v *)
+Theorem seek_commutes_with_filter : forall fw (f : str -> bool) v l, sorted_dir fw l ->
+  filter f (drop_until (dir_leb fw) v l) = drop_until (dir_leb fw) v (filter f l).
+Proof. intros fw f v l Hs. apply drop_until_filter. apply sorted_closed_up. exact Hs. Qed.
+Print Assumptions seek_commutes_with_filter.
+
+(* Store.IterateIds(tx, filter) (and IterateValidIds of a store that is not extended): the seekable cursor over the
+   ids of the entities bucket that the store owns ([present]: a child store skips parent entities without its data)
+   and the filter accepts; the emptyCursor when the entities bucket does not exist *)
+Theorem ids_cursor_refines_enumerates_seeks : forall present matches fuel ids,
+  sorted_asc (bucket_elems ids) -> length (bucket_elems ids) <= fuel ->
+  seekable_props (ids_run present matches fuel 0 None ids) true (filter (accept_of present matches) (bucket_elems ids)).
+Proof. exact ids_props. Qed.
+Print Assumptions ids_cursor_refines_enumerates_seeks.
+
+(* Store.IterateValidIds(tx, filter) of an Extended() store: ValidIdsCursors over IterateIds *)
+Theorem valid_ids_cursor_refines_enumerates_seeks : forall present matches ext fuel ids,
+  sorted_asc (bucket_elems ids) -> length (bucket_elems ids) <= fuel ->
+  seekable_props (valid_ids_run present matches ext fuel ids) true
+                 (filter ext (filter (accept_of present matches) (bucket_elems ids))).
+Proof. exact valid_ids_props. Qed.
+Print Assumptions valid_ids_cursor_refines_enumerates_seeks.
+
+(* a filter that carries paging (ast.Query with skip / limit): Next-only programs enumerate the page *)
+Theorem ids_cursor_paged_enumerates_the_page : forall present matches fuel off lim ids,
+  length (bucket_elems ids) <= fuel ->
+  nextonly_props (fun n => ids_run present matches fuel off lim ids (repeat CNext n))
+                 (page off lim (filter (accept_of present matches) (bucket_elems ids))).
+Proof. exact ids_paged_props. Qed.
+Print Assumptions ids_cursor_paged_enumerates_the_page.
+
+(* Store.QueryWithCursorC / Scan with the unique-index scanner (ScanCursor) over the raw cursor of a bucket in the
+   direction of the scan: the page of the accepted ids, and the number of accepted ids *)
+Theorem scan_cursor_returns_the_page_and_the_count : forall present matches fuel off lim fw l,
+  sorted_asc l -> length l <= fuel ->
+  scan_bolt_run present matches fuel off lim fw l =
+  Ok (page off lim (filter (accept_of present matches) (dir_list fw l)),
+      length (filter (accept_of present matches) l)).
+Proof. exact scan_bolt_run_spec. Qed.
+Print Assumptions scan_cursor_returns_the_page_and_the_count.
+
+(* ... and over ANY cursor that enumerates L (typed, filtered, tree, union providers) *)
+Theorem scan_cursor_over_any_provider : forall St (W : kcursor St) present matches fuel off lim R,
+  sim (plain W) R -> nonnil (plain W) R -> forall w0 L, R w0 L -> length L <= fuel ->
+  scan_cursor St W present matches fuel off lim w0 =
+  Ok (page off lim (filter (accept_of present matches) L), length (filter (accept_of present matches) L)).
+Proof. exact scan_cursor_spec. Qed.
+Print Assumptions scan_cursor_over_any_provider.
